@@ -268,34 +268,35 @@ def check(col, prog, tier, profile, fixture=None):
             else:
                 col.ok("X2" + sfx, b.loc(), key, "own flag test", nontrivial=False)
     I = util.analyse(pc)
+    p1_, p2_ = ("param", 1, I.names.get(1)), ("param", 2, I.names.get(2))
+
+    def opnd(p_):
+        return lambda x: x is not None and (x == p_ or x == ("ref", ("deref", p_)) or x == ("load", ("m0",), ("deref", p_)) or x == ("deref", p_))
+
+    keys = {lt.key: "lt", le.key: "le", gt.key: "gt", ge.key: "ge"}
+    want_of = {"L": "Less", "E": "Equal", "G": "Greater", "U": "None"}
+    covered = set()
+    bad = None
     table = {}
     for st in I.final_states:
         ret = util.ret_term(st)
-        vals = {}
-        for f in st.facts:
-            t = f[1]
-            if f[0] == "eq" and isinstance(t, tuple) and t[0] == "call":
-                d = None
-                for e in st.event_list():
-                    if e.kind == "call" and e.res == t:
-                        d = (e.fn.get("resolved") or e.fn).get("def")
-                if d == le.key:
-                    vals["le"] = bool(f[2])
-                if d == ge.key:
-                    vals["ge"] = bool(f[2])
         if ret[0] == "agg" and ret[1][3] == "None":
             out = "None"
         elif ret[0] == "agg" and ret[1][3] == "Some":
             v = ret[2][0]
-            out = {-1: "Less", 0: "Equal", 1: "Greater"}.get(v[1]) if v[0] == "int" else (v[1][3] if v[0] == "agg" else tstr(v))
+            out = {-1: "Less", 255: "Less", 0: "Equal", 1: "Greater"}.get(v[1]) if v[0] == "int" else (v[1][3] if v[0] == "agg" else tstr(v))
         else:
             out = tstr(ret)
-        table[(vals.get("le"), vals.get("ge"))] = out
-    want = {(False, False): "None", (False, True): "Greater", (True, False): "Less", (True, True): "Equal"}
-    if table == want:
-        col.ok("X2" + sfx, pc.loc(), "%s|table" % fk(pc), "partial_cmp maps (le, ge) to None/Greater/Less/Equal")
+        oc = _outcomes(st, opnd(p1_), opnd(p2_), keys)
+        table["".join(sorted(oc))] = out
+        for o in oc:
+            covered.add(o)
+            if want_of[o] != out:
+                bad = (o, out)
+    if bad is None and covered == {"L", "E", "G", "U"}:
+        col.ok("X2" + sfx, pc.loc(), "%s|table" % fk(pc), "partial_cmp: less -> Less, equal -> Equal, greater -> Greater, unordered -> None on every path (%s)" % table)
     else:
-        col.violation("X2" + sfx, "%s|table" % fk(pc), pc.loc(), "partial_cmp is not the (le, ge) table (got %s)" % table)
+        col.violation("X2" + sfx, "%s|table" % fk(pc), pc.loc(), "partial_cmp does not map less/equal/greater/unordered to Less/Equal/Greater/None: %s (paths by possible outcomes: %s)" % ("outcome %s returns %s" % bad if bad else "outcomes %s never decided" % sorted({"L", "E", "G", "U"} - covered), table))
 
     # ---------------- X3
     eqimp = None
@@ -354,29 +355,43 @@ def check(col, prog, tier, profile, fixture=None):
     ab = util.need_body(crate, "f80::abs")
     I = util.analyse(ab)
     negb = body_of("Neg", "neg")
-    okabs = len(I.final_states) == 2
+    okabs = bool(I.final_states)
+    p1 = ("param", 1, I.names.get(1))
+    keys_abs = {lt.key: "lt", le.key: "le", gt.key: "gt", ge.key: "ge", pc.key: "partial_cmp"}
+
+    def is_self(x):
+        return x is not None and (x == p1 or x == ("ref", ("local", 1)) or (isinstance(x, tuple) and x and x[0] == "ref" and x[1] == ("constval", p1)))
+
+    def is_zero(x):
+        if x is None or not isinstance(x, tuple) or not x:
+            return False
+        for s_ in [x] + list(subterms(x)):
+            if s_[0] == "assoc" and s_[2] == "ZERO":
+                return True
+            if s_[0] == "cst" and str(s_[1]).endswith("::ZERO"):
+                return True
+            if s_[0] == "call" and str(s_[1]).endswith("::from") and s_[2] and ((s_[2][0][0] == "fconst" and s_[2][0][1] == 0.0) or (s_[2][0][0] in ("cst", "int") and "0" in str(s_[2][0][1]))):
+                return True
+        return False
+
+    seen_neg = seen_id = False
     for st in I.final_states:
         ret = util.ret_term(st)
-        calls = [e for e in st.event_list() if e.kind == "call"]
-        ltc = [e for e in calls if (e.fn.get("resolved") or e.fn).get("def") == lt.key]
-        if len(ltc) != 1:
-            okabs = False
-            continue
-        truth = None
-        for f in st.facts:
-            if f[1] == ltc[0].res and f[0] == "eq":
-                truth = bool(f[2])
-        p1 = ("param", 1, I.names.get(1))
-        if truth:
-            okabs = okabs and ret[0] == "call" and (str(ret[1]).endswith("Neg>::neg")) and ret[2][0] == p1
+        oc = _outcomes(st, is_self, is_zero, keys_abs)
+        is_neg = ret[0] == "call" and str(ret[1]).endswith("Neg>::neg") and ret[2][0] == p1
+        if is_neg:
+            seen_neg = True
+            okabs = okabs and oc == {"L"}
+        elif ret == p1:
+            seen_id = True
+            okabs = okabs and "L" not in oc
         else:
-            okabs = okabs and ret == p1
-        zero = [e for e in calls if e.extra.get("name") == "from"]
-        okabs = okabs and len(zero) == 1 and ((zero[0].args[0][0] == "fconst" and zero[0].args[0][1] == 0.0) or (zero[0].args[0][0] in ("cst", "int") and "0" in str(zero[0].args[0][1])))
+            okabs = False
+    okabs = okabs and seen_neg and seen_id
     if okabs:
         col.ok("X4" + sfx, ab.loc(), "%s|abs" % fk(ab), "if self < 0 { -self } else { self }")
     else:
-        col.violation("X4" + sfx, "%s|abs" % fk(ab), ab.loc(), "abs must be `if self < f80::from(0.) { -self } else { self }`")
+        col.violation("X4" + sfx, "%s|abs" % fk(ab), ab.loc(), "abs must return -self exactly when self compares below zero and self otherwise (zeros and NaN unchanged)")
     db = body_of("Default", "default")
     if db is not None:
         I = util.analyse(db)
@@ -407,6 +422,63 @@ def check(col, prog, tier, profile, fixture=None):
             col.ok("X5" + sfx, cb.loc(), key, "bytes decode to %s" % want)
         else:
             col.violation("X5" + sfx, key, cb.loc(), "the byte pattern of f80::%s decodes to %s, not %s" % (cname, val, want))
+
+
+_PRIM = {"lt": {"L"}, "le": {"L", "E"}, "gt": {"G"}, "ge": {"G", "E"}, "eq": {"E"}, "ne": {"L", "G", "U"}}
+_FLIP = {"L": "G", "G": "L", "E": "E", "U": "U"}
+
+
+def _outcomes(st, is_a, is_b, keys):
+    """possible outcomes (L less, E equal, G greater, U unordered) of comparing operand a with operand b that are
+    consistent with the path's facts about calls of the comparison family (lt/le/gt/ge/eq/partial_cmp on (a, b)
+    or (b, a)); `keys`: def key -> primitive name"""
+    out = {"L", "E", "G", "U"}
+    calls = {}
+    for e in st.event_list():
+        if e.kind == "call":
+            d = (e.fn.get("resolved") or e.fn).get("def")
+            if d in keys and len(e.args) >= 2:
+                x, y = e.args[0], e.args[1]
+                xv = (e.extra.get("argvals") or [None, None])[0]
+                yv = (e.extra.get("argvals") or [None, None])[1] if len(e.extra.get("argvals") or []) > 1 else None
+                if (is_a(x) or is_a(xv)) and (is_b(y) or is_b(yv)):
+                    calls[e.res] = (keys[d], False)
+                elif (is_b(x) or is_b(xv)) and (is_a(y) or is_a(yv)):
+                    calls[e.res] = (keys[d], True)
+    for f in st.facts:
+        t = f[1]
+        if f[0] not in ("eq", "ne"):
+            continue
+        if t in calls and calls[t][0] != "partial_cmp":
+            prim, flip = calls[t]
+            truth = (f[0] == "eq") == bool(f[2])
+            sset = _PRIM[prim]
+            if flip:
+                sset = {_FLIP[x] for x in sset}
+            out &= sset if truth else ({"L", "E", "G", "U"} - sset)
+            continue
+        # Option<Ordering> returned by partial_cmp: discr 0 = None (unordered); payload -1/0/1
+        if isinstance(t, tuple) and t and t[0] == "discr" and t[1] in calls and calls[t[1]][0] == "partial_cmp":
+            is_some = (f[0] == "eq") == (f[2] == 1) if f[2] in (0, 1) else None
+            if is_some is True:
+                out -= {"U"}
+            elif is_some is False:
+                out &= {"U"}
+            continue
+        for res, (prim, flip) in calls.items():
+            if prim != "partial_cmp":
+                continue
+            pay = ("proj", 0, ("down", res, 1))
+            tt = t[1] if isinstance(t, tuple) and t and t[0] == "discr" else t
+            if tt == pay and f[2] in (-1, 0, 1, 255):
+                k = {-1: "L", 255: "L", 0: "E", 1: "G"}[f[2]]
+                if flip:
+                    k = _FLIP[k]
+                if f[0] == "eq":
+                    out &= {k}
+                else:
+                    out -= {k}
+    return out
 
 
 def _decode80(bs):
